@@ -33,34 +33,62 @@ Proof.
   repeat (apply andb_prop in H; let H' := fresh "M" in destruct H as [H H']).
   rename H into Mt. rename M into Mu. rename M0 into Mc. rename M1 into Md. rename M2 into Mn.
   unfold migrate_column. destruct (f_ignore f); [reflexivity|].
-  apply cs_eqb_eq in Mt. rewrite Mt.
-  rewrite has_prefix_refl, cs_eqb_refl. rewrite andb_false_r. cbn [negb].
   (* nullable *)
   assert (En : r_nullable_ok r && Bool.eqb (r_nullable r) (f_notnull f) && negb (f_pk f) && negb (r_nullable r) = false).
   { destruct (r_nullable_ok r); [|reflexivity]. cbn in Mn. destruct (Bool.eqb (r_nullable r) (f_notnull f)); [discriminate|reflexivity]. }
-  rewrite En.
   (* comment *)
   assert (Ec : r_comment_ok r && negb (String.eqb (r_comment r) (f_comment f)) && negb (f_pk f) = false).
   { destruct (r_comment_ok r); [|reflexivity]. cbn in Mc. rewrite Mc. reflexivity. }
-  rewrite Ec.
   (* unique *)
   assert (Eu : migrate_column_unique f r = UNone).
   { unfold migrate_column_unique. destruct (r_unique_ok r); cbn; [|reflexivity].
     destruct (f_pk f); [reflexivity|]. cbn in Mu. apply Bool.eqb_prop in Mu. rewrite Mu.
     destruct (f_unique f); reflexivity. }
-  rewrite Eu.
-  (* default *)
-  cbn zeta in Md. apply andb_prop in Md. destruct Md as [Md1 Md2]. apply Bool.eqb_prop in Md1.
-  destruct (f_pk f); [reflexivity|].
-  set (cur := f_hasdef f && (f_defi f || negb (equal_fold (chars (f_default f)) (chars "NULL")))) in *.
-  rewrite Md1. destruct cur; cbn.
-  - cbn in Md2. apply String.eqb_eq in Md2. rewrite Md2.
-    destruct (f_gtype f).
-    + rewrite equal_fold_refl. reflexivity.
-    + rewrite Bool.eqb_reflx. reflexivity.
-    + rewrite cs_eqb_refl. destruct parsed; reflexivity.
-    + rewrite cs_eqb_refl. reflexivity.
-  - reflexivity.
+  rewrite En, Ec, Eu. clear En Ec Eu Mn Mc Mu.
+  (* default: the stage yields its input [alter] *)
+  assert (Ed :
+    (if f_pk f then false else
+     let cur := f_hasdef f && (f_defi f || negb (equal_fold (chars (f_default f)) (chars "NULL"))) in
+     let dv := chars (r_default r) in
+     if r_default_ok r && negb cur then true
+     else if negb (r_default_ok r) && cur then true
+     else if cur || r_default_ok r then
+       match f_gtype f with
+       | GTime => if negb (equal_fold (trim_parens dv) (trim_parens (chars (f_default f)))) then true else false
+       | GBool => negb (Bool.eqb (parse_bool dv) (parse_bool (chars (f_default f))))
+       | GNum p same_float =>
+           (match p with
+            | Some s => negb (cs_eqb dv (chars (f_default f))) && negb (cs_eqb dv (chars s))
+            | None => negb (cs_eqb dv (chars (f_default f)))
+            end) && negb same_float
+       | GOther => negb (cs_eqb dv (chars (f_default f)))
+       end
+     else false) = false).
+  { destruct (f_pk f); [reflexivity|]. unfold default_agrees in Md. cbn zeta in *.
+    set (cur := f_hasdef f && (f_defi f || negb (equal_fold (chars (f_default f)) (chars "NULL")))) in *.
+    apply andb_prop in Md. destruct Md as [Md1 Md2]. apply Bool.eqb_prop in Md1. rewrite Md1.
+    destruct cur; cbn; [|reflexivity].
+    cbn in Md2. destruct (f_gtype f) as [ | |p sf| ].
+    - rewrite orb_false_r in Md2. apply String.eqb_eq in Md2. rewrite Md2, equal_fold_refl. reflexivity.
+    - rewrite orb_false_r in Md2. apply String.eqb_eq in Md2. rewrite Md2, Bool.eqb_reflx. reflexivity.
+    - destruct (String.eqb (r_default r) (f_default f)) eqn:E1.
+      + apply String.eqb_eq in E1. rewrite E1, cs_eqb_refl. destruct p; reflexivity.
+      + cbn in Md2. destruct sf; [rewrite andb_false_r; reflexivity|]. cbn in Md2.
+        destruct p as [s|]; [|discriminate]. apply String.eqb_eq in Md2. rewrite Md2, cs_eqb_refl.
+        rewrite andb_false_r. reflexivity.
+    - rewrite orb_false_r in Md2. apply String.eqb_eq in Md2. rewrite Md2, cs_eqb_refl. reflexivity. }
+  cbv beta zeta in Ed.
+  (* type, size, precision: the stage yields false *)
+  unfold type_agrees in Mt. cbn zeta in Mt.
+  set (full := trim (lower (chars (f_full f)))) in *. set (real := lower (chars (r_type r))) in *.
+  apply orb_prop in Mt. destruct Mt as [Mt|Mt].
+  - apply cs_eqb_eq in Mt. rewrite Mt, has_prefix_refl, cs_eqb_refl. rewrite andb_false_r. cbn [negb].
+    cbv beta iota zeta. rewrite Ed. reflexivity.
+  - apply andb_prop in Mt. destruct Mt as [Mt Mp]. apply andb_prop in Mt. destruct Mt as [Mh Ml].
+    rewrite Mh. rewrite andb_false_r. rewrite Ml.
+    assert (Ep : r_prec_ok r && negb (f_precision f =? r_prec r) && delimited (dec_of (f_precision f)) (chars (f_dtype f)) = false).
+    { destruct (r_prec_ok r); [|reflexivity]. cbn in Mp. rewrite Mp. reflexivity. }
+    rewrite Ep. destruct (cs_eqb full real); cbv beta iota zeta; rewrite Ed; reflexivity.
 Qed.
 
 (* ------------------------------------------------------------------ *)
